@@ -125,6 +125,22 @@ theorem tinv_step {s s' : MState} {m : Step} (hp : PInv s) (h : TInv s) (hs : st
       simp only [tokensIn, List.count_append, List.getD_eq_getElem?_getD] at hc hs htd ⊢
       omega
     · simp at hs
+  | rearrange w l =>
+    simp only [stepR] at hs
+    split at hs
+    · rename_i hw
+      simp only [Bool.and_eq_true, decide_eq_true_eq, List.isPerm_iff] at hw
+      obtain ⟨hw, hperm⟩ := hw
+      obtain ⟨hwl, _⟩ := List.getElem?_eq_some_iff.1 hw
+      have hwl : w < s.locs.length := hp.wf ▸ hwl
+      simp at hs; subst hs
+      refine ⟨h.nodup, fun ho t => ?_⟩
+      have hc := h.cons ho t
+      have hs := count_flatten_set t s.locs w l hwl
+      have hpc := hperm.count_eq t
+      simp only [tokensIn, List.count_append, List.getD_eq_getElem?_getD] at hc hs hpc ⊢
+      omega
+    · simp at hs
   | drop w =>
     simp only [stepR] at hs
     split at hs
